@@ -198,7 +198,7 @@ def v1_spec(spec):
     return s
 
 
-def load_once(cls, spec, reg, doc, use_json=False):
+def load_once(cls, spec, reg, doc, use_json=False, v1=False):
     from dataclass_wizard import fromdict
     j = copy.deepcopy(doc)
     before = copy.deepcopy(j)
@@ -219,9 +219,9 @@ def load_once(cls, spec, reg, doc, use_json=False):
         strict = rt.conforms(r, spec, reg)
         out['conf'] = strict
         if strict is not None:
-            lax = set()
+            lax = {'@v1'} if v1 else set()
             out['lax_conf'] = rt.conforms(r, spec, reg, lax=lax)
-            out['lax_rules'] = sorted(lax)
+            out['lax_rules'] = sorted(x for x in lax if not x.startswith('@'))
     out['input_same'] = rt.show(j, reg) == rt.show(before, reg)
     return out
 
@@ -271,7 +271,7 @@ def run_case(c):
         except Exception:
             rec['doc'] = None
         rec['v0'] = load_once(cls, c['root'], reg, doc)
-        rec['v1'] = load_once(cls1, spec1, reg1, doc)
+        rec['v1'] = load_once(cls1, spec1, reg1, doc, v1=True)
         if wizard and isinstance(doc, dict):
             try:
                 rec['v0_json'] = load_once(cls, c['root'], reg, doc, use_json=True)
